@@ -149,20 +149,25 @@ def section(b):
     framei = ', '.join('self.%s@ == s%s' % (f, f) for f, _ in ins + outs)
     A('//@loop 1')
     A('//  invariant')
-    A('//      pos <= __steps, __steps == n, 1 <= n, %s,' % ', '.join('n <= %s@.data.len()' % f for f, _ in ins + outs))
+    A('//      pos <= __steps, __steps == n,')
+    A('//      1 <= n, // [C19.%s.a-call-that-gets-this-far-makes-at-least-one-step]' % lo)
+    for f in [f for f, _ in ins + outs]:
+        A('//      n <= %s@.data.len(), // [C19.%s.the-step-count-fits-every-window]' % (f, lo))
     A('//      %s,' % ', '.join('%s@.sid == w%s.sid, %s@.data.len() == w%s.data.len()' % (f, f, f, f) for f, _ in outs))
     A('//      %s,' % framei)
     A('//      atv == views(%s_tag@), pos_sorted(atv),' % tsrc)
-    A('//      empty_tags == (%s),' % ' && '.join('%s_tag@.len() == 0' % f for f, _ in ins))
+    # all the fast path needs: it is taken only when the tags that reach the outputs are absent (how the generated code
+    # decides that is its business)
+    A('//      empty_tags ==> atv.len() == 0, // [C19.%s.the-tag-free-fast-path-is-taken-only-without-tags]' % lo)
     for j, (o, _) in enumerate(outs):
         if stateful:
             rhs = 'ps_v11_0(a@.data[k], wrap32(k0 + k))'
         else:
             rhs = 'ps_%s_%d(%s)' % (lo, j, ', '.join('%s@.data[k]' % f for f, _ in ins))
-        A('//      forall|k: int| 0 <= k < pos ==> #[trigger] %s@.data[k] == %s,' % (o, rhs))
+        A('//      forall|k: int| 0 <= k < pos ==> #[trigger] %s@.data[k] == %s, // [C19.%s.every-sample-of-output-%s-is-process_sync-of-the-inputs-at-the-same-step]' % (o, rhs, lo, o))
     if stateful:
         A('//      self.k == wrap32(k0 + pos),')
-    A('//      views(otags@) == tv_lt(atv, pos as int),')
+    A('//      views(otags@) == tv_lt(atv, pos as int), // [C19.%s.tags-are-collected-position-by-position]' % lo)
     A('//@loop 2')
     A('//  invariant')
     A('//      __i <= __ts@.len(), __ts@.len() == 0, views(otags@) == tv_lt(atv, pos as int),')
@@ -219,7 +224,9 @@ def section(b):
     A('//@cut fn @expanded/hooks BlockEOF@%s::eof' % nm)
     A('//@ret r')
     A('//@ensures')
-    A('//  [C19.%s.end-of-input-only-when-every-input-has-ended-and-is-drained] r == (%s),' % (lo, ' && '.join('old(self).%s.ended()' % f for f, _ in ins)))
+    # the property states one direction only ("true ONLY when ..."); an eof() that is never true stalls a graph, which is
+    # C04 / C05 material, not C19
+    A('//  [C19.%s.end-of-input-only-when-every-input-has-ended-and-is-drained] r ==> (%s),' % (lo, ' && '.join('old(self).%s.ended()' % f for f, _ in ins)))
     A('//@end')
     # ---- new
     A('//@cut fn @expanded/hooks %s::new' % nm)
